@@ -369,6 +369,11 @@ def mentioned_paths(payload_bytes, argv_paths, cwd):
         strs += [x for _, x in leaves(v) if isinstance(x, str) and len(x) < 4096]
     except Exception:
         pass
+    if len(strs) > 400:
+        # many-paths payloads: the generated names are all siblings; keep a bounded sample plus
+        # every name that does not follow the generated pattern
+        strs = [x for x in strs if "/gen/f" not in x] + [x for x in strs if "/gen/f" in x][:50]
+        strs = strs[:3000]
     absolute = [s for s in strs if s.startswith("/")]
     bases = set([cwd] + [a for a in absolute if os.path.isdir(a)])
     for s in strs:
